@@ -566,6 +566,50 @@ func c20CLI(ev *vlib.Evidence) {
 		}(c.interval, c.accept)
 	}
 	wg.Wait()
+	// the deprecated commands run the same agent: once running they, too, can always be stopped
+	paddr := fmt.Sprintf("127.0.0.1:%d", vlib.FreePort())
+	pp, perr := vlib.StartProc(filepath.Join(dir, "legacy-pool.log"), []string{"HOME=" + dir}, bin, "pool", "--store=memory", "--bind", paddr)
+	if perr != nil || !pp.WaitListening(paddr, 30*time.Second) {
+		if pp != nil {
+			pp.Kill(false)
+		}
+		ev.Inconclusive("pool-start")
+		return
+	}
+	defer pp.Kill(false)
+	legacy := map[string][]string{
+		"host-ws-pool":   {"host", "--pool=ws://" + paddr + "/", "--rpc", "fakenode://" + id.NodeID + "?fullnode=1", "--nodekey", keyFile},
+		"client-ws-pool": {"client", "ws://" + paddr + "/", "--rpc", "fakenode://" + id.NodeID, "--nodekey", keyFile},
+	}
+	for name, args := range legacy {
+		cmd := exec.Command(bin, args...)
+		cmd.Env = append(os.Environ(), "HOME="+dir)
+		logf, _ := os.Create(filepath.Join(dir, "cli-"+name+".log"))
+		cmd.Stdout, cmd.Stderr = logf, logf
+		if err := cmd.Start(); err != nil {
+			ev.Inconclusive("cli-start")
+			continue
+		}
+		done := make(chan error, 1)
+		go func() { done <- cmd.Wait() }()
+		ev.Case("cli legacy "+name, true)
+		ev.Count("cli-runs", 1)
+		select {
+		case <-done:
+			// did not get going in this environment: nothing to stop
+			ev.Count("cli-legacy-exited-early:"+name, 1)
+		case <-time.After(3 * time.Second):
+			cmd.Process.Signal(syscall.SIGINT)
+			select {
+			case <-done:
+			case <-time.After(15 * time.Second):
+				cmd.Process.Kill()
+				<-done
+				out, _ := os.ReadFile(logf.Name())
+				ev.Violate("cli:legacy-command-could-not-be-stopped:"+name, map[string]interface{}{"command": strings.Join(args, " "), "output": tailStr(string(out), 500)})
+			}
+		}
+	}
 }
 
 func tailStr(s string, n int) string {
@@ -577,7 +621,7 @@ func tailStr(s string, n int) string {
 
 func TestC20(t *testing.T) {
 	ev := vlib.NewEvidence("C20", "exploration",
-		"real agent.Agent with a scripted pool: random sequences of Start (pool healthy / failing at connect / failing at the first keep-alive), Stop (with the outcome collected by Wait or left uncollected), a keep-alive failing while running, forced UpdatePeers; the number of live keep-alive loops is observed directly after every step by counting agent.(*Agent).serveUpdates frames in a dump of all goroutine stacks; concurrent Starts; keep-alive cadence (count per window vs the logical ticker bound; against a pool that takes 60 % of the interval to answer, compared with a reference ticker loop doing the same waiting at the same time); an 11.5 s run against a pool that honours request contexts; the built vipnode binary run with --update-interval in {4s,5s,6s,60s,119s,120s,121s,10m,junk,-1s,0} against an in-memory pool and a fake node, accepted runs stopped with SIGINT; the built agent at --update-interval=100s against the built pool, a client polling for peers every 5 s for 125 s must be offered the host every time; non-trivial = a sequence with at least one successful start and a refused second start or a restart; distinct = distinct traces")
+		"real agent.Agent with a scripted pool: random sequences of Start (pool healthy / failing at connect / failing at the first keep-alive), Stop (with the outcome collected by Wait or left uncollected), a keep-alive failing while running, forced UpdatePeers; the number of live keep-alive loops is observed directly after every step by counting agent.(*Agent).serveUpdates frames in a dump of all goroutine stacks; concurrent Starts; keep-alive cadence (count per window vs the logical ticker bound; against a pool that takes 60 % of the interval to answer, compared with a reference ticker loop doing the same waiting at the same time); an 11.5 s run against a pool that honours request contexts; the built vipnode binary run with --update-interval in {4s,5s,6s,60s,119s,120s,121s,10m,junk,-1s,0} against an in-memory pool and a fake node, accepted runs stopped with SIGINT, as are the deprecated `vipnode host` and `vipnode client` commands; the built agent at --update-interval=100s against the built pool, a client polling for peers every 5 s for 125 s must be offered the host every time; non-trivial = a sequence with at least one successful start and a refused second start or a restart; distinct = distinct traces")
 	ev.Assume("Stop is only called while a loop is running (Stop on an idle agent blocks by design of the API and is not part of the statement)")
 	for i := 0; i < vlib.Scale(300, 8000); i++ {
 		c20Sequence(ev, i)
